@@ -34,6 +34,7 @@ Inductive stage :=
 | StSignature | StDataFmt | StClass          (* ELF probe *)
 | StHdrSize (section : bool) (entsz : N)       (* "Invalid ELF %s header entry size" *)
 | StHdrRead (section : bool) (idx : N) (off : N) (* "Cannot read ELF %s header #%u at %llu" *)
+| StHdrExtent (section : bool) (num : N) (off : N) (* "Invalid ELF %s header table (%u entries at %llu)" *)
 | StTooMany (section : bool) (n : N)
 | StAlloc
 | StNoContent
